@@ -199,6 +199,9 @@ def t1(ctx):
     for c in CONTRACTS:
         verify_contract(ctx, SUITE, c, sentinels=False, replay=replay_mrca)
     validate_assumed(ctx)
+    # patristic_distance(tree, t1, t2, is_bipartitions_updated) hands the caller's flag to Tree.mrca unchanged
+    from dpvc import forwarding
+    forwarding.obligations(ctx, "is_bipartitions_updated", lambda mn: mn == "dendropy.calculate.treemeasure", "flag-reaches", exact=True)
 
 
 def replay(ctx, rec):
